@@ -106,7 +106,11 @@ def _model_check(ctx):
         mod, cfg, files = mc_files(tag, apps, counts, tks, steps, outs, policies=pols)
         for attempt in (1, 2):
             try:
+                # -coverage 1 quadruples the run time of the two-application model (16 s ->
+                # 60 s for 216 k states); action coverage (vacuity) is taken from the
+                # one-application run, which has the same actions
                 return tlc.mc(SPEC_DIR, mod, cfg, extra_files=files, workers=8,
+                              coverage=(len(apps) == 1),
                               timeout=600 if ctx.quick else 1500, heap='4g')
             except tlc.MachineryError as e:
                 if attempt == 2 or 'rc=143' not in str(e):
